@@ -44,14 +44,23 @@ def h_getter(tu, flt, name):
     """`this->m()`, `p()`, `n()`, `Q()`: the callee's own body (its single return expression; an assert compiled out under NDEBUG is a
     null statement) is evaluated in the caller's environment: same `this`"""
     def h(wp, node, args, obj):
-        if unwrap(obj).get('kind') != 'CXXThisExpr':
-            raise Unsupported(f'{wp.name}: {name}() on something that is not *this')
+        o = unwrap(obj)
+        if o.get('kind') == 'CXXThisExpr':
+            prefix = wp.this_prefix
+        elif o.get('kind') == 'DeclRefExpr':
+            prefix = wp.key_of(o) + '.'
+        else:
+            raise Unsupported(f'{wp.name}: {name}() on something that is neither *this nor a named object')
         fn = astload.find_definition(tu, flt, name, lambda d: len(astload.param_types(d)) == 0)
         body = [c for c in fn['inner'] if c['kind'] == 'CompoundStmt'][0]
         stmts = [s for s in body.get('inner', []) if s.get('kind') != 'NullStmt' and not void_literal(s)]
         if len(stmts) != 1 or stmts[0].get('kind') != 'ReturnStmt':
             raise Unsupported(f'{wp.name}: {name}() is not a single return statement')
-        return wp.ev(stmts[0]['inner'][0])
+        saved, wp.this_prefix = wp.this_prefix, prefix
+        try:
+            return wp.ev(stmts[0]['inner'][0])
+        finally:
+            wp.this_prefix = saved
     return h
 
 
